@@ -349,9 +349,43 @@ def r6_reentrant(ctx, F):
                   "the nested module runs while outer frames hold untraced values" % t.qpath, fn=f, line=c.line)
 
 
+def r1d_generic_params(ctx, F):
+    """a generic container's Trace impl (`impl<K: Trace, V: Trace> Trace for SmallMap<K, V>`, Vec<T>, Option<T>, tuples,
+    DictGen<T> ...) reaches the `trace` of every type parameter that is bounded by Trace: a parameter that is never
+    traced (e.g. the keys of a map) keeps pointing into the old arena after a collection"""
+    n = 0
+    for i in F.impls:
+        if i["crate"] != "starlark" or not re.search(r"values::trace::Trace<'v>$", i["trait"]):
+            continue
+        tps = sorted(set(re.findall(r"\b([A-Z]\w*): values::trace::Trace", str(i.get("preds", "")))))
+        if not tps:
+            continue
+        fs = [f for f in F.fns.values() if f.crate == "starlark" and f.trait == i["trait"] and f.selfty == i["selfty"]
+              and f.name == "trace"]
+        if not fs:
+            continue
+        n += 1
+        selfs = []
+        for f in fs:
+            for g in [f] + list(F.closures_of(f)):
+                for c in g.calls:
+                    m = re.match(r"<(.+) as values::trace::Trace<'(?:_|v)>>::trace$", c.full)
+                    if m and c.bb not in g.cleanup:
+                        selfs.append(m.group(1))
+        for p in tps:
+            ok = any(re.search(r"(?<![A-Za-z0-9_])%s(?![A-Za-z0-9_])" % re.escape(p), t) for t in selfs)
+            ctx.check(ok, "C03.R1", "generic-param-traced:%s:%s" % (i["selfty"][:60], p),
+                      "the trace of type parameter %s is reached" % p,
+                      "`impl Trace for %s` never calls trace on a value of its parameter `%s` (bounded by Trace): values "
+                      "of that type inside the container are not relocated by the collector (e.g. the keys of a map "
+                      "still point into the freed arena)" % (i["selfty"], p), fn=fs[0])
+    ctx.floor("C03.R1", "generic Trace impls with Trace-bounded parameters", n, 25, inventory=True)
+
+
 def run(ctx):
     F = ctx.facts("core")
     vb = ValueBearing(F)
+    r1d_generic_params(ctx, F)
     r1_trace(ctx, F, vb)
     r1b_dead_temporaries(ctx, F)
     r1c_all_elements(ctx, F)
